@@ -368,7 +368,7 @@ def run : Handler := fun req => do
     let qryM := sortStrs ((cps.filter (·.loc == .query)).map fun p => String.ofList p.name)
     let modelOp := match parsed with
       | .ok p => Json.mkObj [("route", Json.arr #[Json.str method, Json.str path]), ("http", Json.str method),
-          ("pushes", Json.arr (p.segments.map Oas3.Driver.Path.segJson).toArray), ("pattern", str (axumPath p)),
+          ("pushes", Json.arr (p.segments.map Oas3.Driver.Path.segJson).toArray), ("pattern", str (Oas3.Driver.Path.axumPattern decl path.toList p)),
           ("headers", Json.arr (hdrM.map Json.str).toArray), ("query", Json.arr (qryM.map Json.str).toArray),
           ("body", Json.arr #[Json.str bodyM, Json.bool bodyOpt])]
       | .error _ => Json.mkObj [("route", Json.arr #[Json.str method, Json.str path]), ("error", Json.str "template")]
